@@ -26,9 +26,17 @@ def hAddmod : List Int → Option Verdict
 /-- spec verdicts are evaluated against the implementation's result `impl` -/
 def specScalar (f : Nat) (impl : List Int) : Bool := impl == [(f : Int)]
 
-structure Handler where
+structure PHandler where
   run : List Int → Option Verdict              -- args ↦ model result (+class)
   spec : List Int → List Int → Option Bool     -- args, impl result ↦ spec verdict
+
+/-- handlers may keep caches (transform tables), hence `IO` -/
+structure Handler where
+  run : List Int → IO (Option Verdict)
+  spec : List Int → List Int → IO (Option Bool)
+
+def PHandler.lift (h : PHandler) : Handler :=
+  { run := fun a => pure (h.run a), spec := fun a i => pure (h.spec a i) }
 
 def withRow (args : List Int) (k : Nat → Row → List Nat → Option α) : Option α :=
   match args with
@@ -37,7 +45,7 @@ def withRow (args : List Int) (k : Nat → Row → List Nat → Option α) : Opt
     k w.toNat r (rest.map Int.toNat)
   | _ => none
 
-def opsHandlers : List (String × Handler) := [
+def opsHandlersP : List (String × PHandler) := [
   ("addmod", {
     run := fun a => withRow a fun w r xs => match xs with
       | [x, y] => some { model := [addmod w r.p x y], specOk := true, cls := clsSum r.p x y } | _ => none,
@@ -90,5 +98,7 @@ def opsHandlers : List (String × Handler) := [
     spec := fun a impl => withRow a fun _ r xs => match xs, impl with
       | [z, x, y], [res] => some (Spec.muladdLazyOk r.p z x y res.toNat && decide (0 ≤ res)) | _, _ => none })
 ]
+
+def opsHandlers : List (String × Handler) := opsHandlersP.map (fun (n, h) => (n, h.lift))
 
 end Driver
